@@ -656,11 +656,16 @@ impl World {
                 ));
             }
             if self.facts.len() == len {
+                // a world that is over its fact budget must not succeed just
+                // because this pass derived nothing new
+                if self.facts.len() > limits.max_facts as usize {
+                    break Err(Execution::RunLimit(crate::error::RunLimit::TooManyFacts));
+                }
                 break Ok(());
             }
 
             index += 1;
-            if index == limits.max_iterations {
+            if index >= limits.max_iterations {
                 break Err(Execution::RunLimit(
                     crate::error::RunLimit::TooManyIterations,
                 ));
